@@ -49,6 +49,8 @@ pub enum Ev {
     Inject(usize, usize, usize, Option<u16>),
     Advance(i64),
     Drop(usize),
+    /// the node shuts down: it broadcasts its close message and is never heard of again
+    Close(usize),
 }
 
 /// reference key: (vlan or None, mac); VLAN 0 counts as untagged
@@ -62,6 +64,8 @@ pub struct Sys {
     /// learned[r][key] = (peer node, time)
     learned: Vec<BTreeMap<(Option<u16>, [u8; 6]), (usize, Time)>>,
     seq: u32,
+    /// nodes that shut down (their own state is of no interest any more)
+    closed: Vec<bool>,
 }
 
 pub struct M {
@@ -70,6 +74,8 @@ pub struct M {
     pub n: usize,
     /// all nodes configured with `algorithms: [plain]`
     pub plain: bool,
+    /// small alphabet (one station behind node 0 or 1, one sender on node 2, untagged) for deeper schedules: refresh, move, expiry
+    pub narrow: bool,
 }
 
 impl M {
@@ -119,19 +125,32 @@ impl Model for M {
         for i in 0..self.n {
             net.pop_frames(i);
         }
-        Sys { net, learned: vec![BTreeMap::new(); self.n], seq: 0 }
+        Sys { net, learned: vec![BTreeMap::new(); self.n], seq: 0, closed: vec![false; self.n] }
     }
 
     fn enabled(&self, _s: &Sys, hist: &[Ev]) -> Vec<Ev> {
         let mut v = vec![];
-        for node in 0..self.n {
-            for src in 0..2 {
-                for dst in 0..3 {
-                    if dst == src {
-                        continue;
-                    }
-                    for tag in tags(self.tier) {
-                        v.push(Ev::Inject(node, src, dst, tag));
+        let closed: Vec<usize> = hist.iter().filter_map(|e| if let Ev::Close(n) = e { Some(*n) } else { None }).collect();
+        if self.narrow {
+            // station MAC0 speaks behind node 0 or node 1 (broadcast); node 2 sends to MAC0
+            for (node, src, dst) in [(0, 0, 2), (1, 0, 2), (2, 1, 0)] {
+                if !closed.contains(&node) {
+                    v.push(Ev::Inject(node, src, dst, None));
+                }
+            }
+        } else {
+            for node in 0..self.n {
+                if closed.contains(&node) {
+                    continue;
+                }
+                for src in 0..2 {
+                    for dst in 0..3 {
+                        if dst == src {
+                            continue;
+                        }
+                        for tag in tags(self.tier) {
+                            v.push(Ev::Inject(node, src, dst, tag));
+                        }
                     }
                 }
             }
@@ -139,9 +158,13 @@ impl Model for M {
         for dt in [1, T - 1, T, T + 1] {
             v.push(Ev::Advance(dt));
         }
-        if hist.iter().filter(|e| matches!(e, Ev::Drop(_))).count() < 1 {
+        if !hist.iter().any(|e| matches!(e, Ev::Drop(_) | Ev::Close(_))) {
             for node in 0..self.n {
+                if self.narrow && node == 2 {
+                    continue;
+                }
                 v.push(Ev::Drop(node));
+                v.push(Ev::Close(node));
             }
         }
         v
@@ -243,11 +266,35 @@ impl Model for M {
                     s.learned[r].retain(|_, (p, _)| p != node);
                 }
             }
+            Ev::Close(node) => {
+                s.net.queue.clear();
+                s.net.with_node(*node, |n| n.verif_shutdown());
+                s.net.deliver_all(64);
+                s.net.silenced[*node] = true;
+                s.closed[*node] = true;
+                // NOW (no tick in between): the node is nobody's peer and nothing resolves to it any more
+                let gone = s.net.addrs[*node];
+                for j in 0..self.n {
+                    if j == *node {
+                        continue;
+                    }
+                    if s.net.connected(j, *node) {
+                        return Err(Fail::new("closed_peer_kept", format!("node {} still has node {} as peer after its close message", j, node)));
+                    }
+                    if let Some(e) = s.net.nodes[j].verif_table().verif_cache().iter().find(|e| e.1 == gone) {
+                        return Err(Fail::new("learned_from_departed_peer", format!("node {} still maps {} to node {} right after its close message", j, e.0, node)).with("by", "close"));
+                    }
+                }
+                s.learned[*node].clear();
+                for r in 0..self.n {
+                    s.learned[r].retain(|_, (p, _)| p != node);
+                }
+            }
         }
         // implementation's learned tables must not contain anything the reference does not know (hub/router: nothing at all)
         for r in 0..self.n {
             let cache = s.net.nodes[r].verif_table().verif_cache();
-            if self.mode == Mode::Hub && !cache.is_empty() {
+            if self.mode == Mode::Hub && !cache.is_empty() && !s.closed[r] {
                 return Err(Fail::new("learned_in_non_learning_mode", format!("{} mode: node {} learned {:?}", self.mode, r, cache)).with("mode", format!("{}", self.mode)));
             }
         }
@@ -258,6 +305,10 @@ impl Model for M {
         let mut out = String::new();
         let now = s.net.now;
         for r in 0..self.n {
+            if s.closed[r] {
+                out.push_str(&format!("|n{}:closed", r));
+                continue;
+            }
             out.push_str(&format!("|n{}:", r));
             for (a, p, t) in s.net.nodes[r].verif_table().verif_cache() {
                 if t >= now {
@@ -275,6 +326,9 @@ impl Model for M {
         let now = s.net.now;
         let mut class = 0u64;
         for r in 0..self.n {
+            if s.closed[r] {
+                continue;
+            }
             let cache: Vec<_> = s.net.nodes[r].verif_table().verif_cache().into_iter().filter(|x| x.2 >= now).collect();
             let reference: Vec<_> = s.learned[r].iter().filter(|(_, (_, t))| now <= *t + T).collect();
             if self.mode != Mode::Hub && cache.len() != reference.len() {
@@ -364,10 +418,11 @@ pub fn run_router(c: &RouterCase) -> CaseResult {
 
 pub fn variants(tier: Tier) -> Vec<(String, M, usize)> {
     vec![
-        ("learning_switch".to_string(), M { mode: Mode::Switch, tier, n: 3, plain: false }, tier.pick(3, 4)),
-        ("learning_hub".to_string(), M { mode: Mode::Hub, tier: Tier::Quick, n: 3, plain: false }, tier.pick(2, 3)),
-        ("learning_switch_plain".to_string(), M { mode: Mode::Switch, tier: Tier::Quick, n: 3, plain: true }, tier.pick(2, 3)),
-        ("learning_normal_tap".to_string(), M { mode: Mode::Normal, tier: Tier::Quick, n: 3, plain: false }, tier.pick(2, 3)),
+        ("learning_switch".to_string(), M { mode: Mode::Switch, tier, n: 3, plain: false, narrow: false }, tier.pick(3, 4)),
+        ("learning_switch_station".to_string(), M { mode: Mode::Switch, tier: Tier::Quick, n: 3, plain: false, narrow: true }, tier.pick(5, 7)),
+        ("learning_hub".to_string(), M { mode: Mode::Hub, tier: Tier::Quick, n: 3, plain: false, narrow: false }, tier.pick(2, 3)),
+        ("learning_switch_plain".to_string(), M { mode: Mode::Switch, tier: Tier::Quick, n: 3, plain: true, narrow: false }, tier.pick(2, 3)),
+        ("learning_normal_tap".to_string(), M { mode: Mode::Normal, tier: Tier::Quick, n: 3, plain: false, narrow: false }, tier.pick(2, 3)),
     ]
 }
 
